@@ -92,8 +92,9 @@ def run_property(pid, tier, seed):
     discharged = 0
     obligations = 0
     thm_info = []
-    for m in getattr(mod, "MODULES", []):
-        names = common.theorems_of(m)
+    extra = getattr(mod, "THEOREMS", {})
+    for m in list(getattr(mod, "MODULES", [])) + [k for k in extra if k not in getattr(mod, "MODULES", [])]:
+        names = (common.theorems_of(m) if m in getattr(mod, "MODULES", []) else []) + list(extra.get(m, []))
         theorem_names[m] = names
         obligations += len(names)
         ok, log, failed, cmd = common.lake_build([m])
